@@ -13,7 +13,7 @@ ASSUMPTIONS = ["login reply of at least 12 bytes in the cases the Spec checker j
                "with the model only"]
 RULE = ("single operations of all 12 kinds; sequences of 2..12 operations on one API object (all ordered pairs of kinds in the "
         "thorough tier) with a fresh session id per login and the clock advanced between operations; pairs of objects with "
-        "different ids and keys run concurrently; non-trivial = distinct operations that wrote at least one command frame")
+        "different ids and keys run concurrently, including the four-frame thermostat flow against another object's login; non-trivial = distinct operations that wrote at least one command frame")
 REQUIREMENT = ("frames of one operation = login frame of this API for this clock reading (key for type 1, device id for type 2), then "
                "1 command frame (thermostat control: 1-3) each carrying bytes 8-11 of this login's reply, this operation's "
                "timestamp and the configured device id (Spec/FrameSpec.v c03_check)")
@@ -95,19 +95,28 @@ class Interleaved(world.ScriptedApi):
         return "".join(f + "|" for f in self.frames) + out
 
 
-def run_interleaved(rnd, n_pairs):
+def four_frame_args(rnd):
+    """thermostat control that needs all four frames: separate-swing remote, swing plus another setting, not update-only"""
+    irset = world.gen_irset(rnd); irset["IRSetID"] = rnd.choice(["ELEC7022", "ZM079055", "ZM079065", "ZM079049"])
+    irset["IRWaveList"] += [{"Key": k, "Para": "P", "HexCode": k.upper().encode().hex()} for k in ("FUN_d0", "FUN_d1", "off", "aa", "ad", "aw", "ar", "ah", "on_")]
+    return [irset, rnd.choice([True, False]), rnd.choice(world.MODE_NAMES), rnd.randrange(16, 31), rnd.choice(world.FAN_NAMES), rnd.choice([True, False]), False]
+
+
+def run_interleaved(rnd, n_pairs, four_frames=False):
     """two API objects (any mix of classes, different identities) run their operation lists concurrently"""
     async def go():
         cases = []; texts = []
         for _ in range(n_pairs):
             t0 = rnd.randrange(1_600_000_000, 2_000_000_000)
             with time_machine.travel(float(t0), tick=False) as trav:
-                objs = [Interleaved(rnd, trav, rnd.random() < .5, "%06x" % rnd.randrange(1 << 24), "%02x" % rnd.randrange(256)) for _ in range(2)]
+                objs = [Interleaved(rnd, trav, (rnd.random() < .5) if not (four_frames and j == 0) else True, "%06x" % rnd.randrange(1 << 24), "%02x" % rnd.randrange(256)) for j in range(2)]
                 async def drive(o):
                     t2 = isinstance(o.api, world.SwitcherType2Api); res = []
                     for _ in range(rnd.randrange(1, 4)):
                         kind = rnd.choice([k for k in range(1, 13) if (k in world.TYPE2_KINDS) == t2])
+                        if four_frames and t2: kind = 12
                         c = clean_case(rnd, kind); c["id"] = o.api._device_id; c["key"] = o.api._device_key
+                        if four_frames and t2: c["args"] = four_frame_args(rnd)
                         if kind == 6: c["args"][0] = c["args"][1] = "10:00"       # the date may roll while the clock is shifted
                         txt = await o.run_unfrozen(kind, c["args"], [bytes.fromhex(r) for r in c["replies"]])
                         fs, _ = oc.split_text(txt)
@@ -132,6 +141,8 @@ def run(tier, rnd, out):
     judge(out, "sequences-on-one-object", cases, texts)
     cases, texts = run_interleaved(rnd, 40 if tier == "quick" else 1000)
     judge(out, "two-objects-interleaved", cases, texts)
+    cases, texts = run_interleaved(rnd, 40 if tier == "quick" else 1000, four_frames=True)
+    judge(out, "four-frame-thermostat-flow-interleaved-with-another-object", cases, texts)
     tcp = [c for c in oc.mixed_cases(rnd, 2 if tier == "quick" else 15) if all(len(r) > 0 for r in c["replies"])]
     judge(out, "single-over-tcp", tcp, asyncio.run(oc.run_tcp(tcp)))
 
